@@ -291,7 +291,7 @@ def _short_sim(design, seed, idx, nm):
     return "ok", {}
 
 
-PIGGY = ["c01", "c03", "c03comb", "c04", "c14", "c15", "c16", "c07", "c08", "c03comb"]
+PIGGY = ["c01", "c03", "c03comb", "c04", "c14", "c15", "c16", "c07", "c08", "c03comb", "c12", "c02", "c20"]
 
 
 def piggy_source(seed, idx, tier):
@@ -330,6 +330,31 @@ def piggy_source(seed, idx, tier):
         m = importlib.import_module(f"vf.props.{w}")
         cfg = m.CONFIGS[(j * 7 + seed) % len(m.CONFIGS)]
         return w, m.render_src(cfg), False
+    if w == "c12":
+        # instantiation trees (the typed-view actuals of the known C06/C12 finding are left to their own fixed probe)
+        from vf.core import rng as _rng
+        from vf.props import c12
+
+        for k in range(20):
+            rs = _rng.Stream(seed + 7, "C12", "tree", j * 20 + k)
+            tree = c12.gen_tree(rs)
+            if rs.below(3) == 0:
+                tree = c12.cross_depth(tree, rs)
+            if not c12.uses_typed_view_actual(tree):
+                break
+        return w, c12.render_hier(tree)[0], False
+    if w == "c02":
+        from vf.props import c02
+
+        e, t = c02.gen_case(seed + 7, j, tier)
+        return w, c02.render_src(e, t), False
+    if w == "c20":
+        from vf.core import rng as _rng
+        from vf.props import c20
+
+        rs = _rng.Stream(seed + 7, "C20", "map", j)
+        m = c20.gen_interconnect(rs) if j % 4 == 0 else c20.gen_map(rs)
+        return w, c20.render_src(m), False
     if w == "c07":
         from vf.props import c07
 
